@@ -2,7 +2,7 @@
 from checks import symgen, refqr, refmicro, refrmqr
 
 ID = 'C02'
-PROP_MODULES = ['QRV.Props.C02', 'QRV.Props.C02Symbol', 'QRV.Props.C02SymbolMicro']
+PROP_MODULES = ['QRV.Props.C02', 'QRV.Props.C02Symbol', 'QRV.Props.C02SymbolMicro', 'QRV.Props.C02SymbolRMQR']
 RULE = ('every (version, level) pair of the three symbologies with every explicit mask (rotating in the quick tier) and automatic masking x the structured segment lists of C01. '
         'The implementation\'s bitmap is compared module for module with an independently written reference encoder (checks/refqr.py, refmicro.py, refrmqr.py: geometry, '
         'tables in compact form, BCH, RS by polynomial division, placement as a declarative list) in either admitted form (Micro QR M1/M3 final half codeword), and '
@@ -16,13 +16,13 @@ TRUSTED = [
 ASSUMPTIONS = ['rMQR rows of the capacity table are modelled, not verified (necessary conditions only)',
                'module (0, h-2) of the five R9xN rMQR symbols: my recollection of the standard is unsure (corner finder vs separator); both forms admitted']
 PARTIAL = ('QR and Micro QR: conformance of the whole emitted symbol is a theorem (qr_symbol / micro_symbol: module by module equal to the declarative symbol of Spec/Symbol*.lean, which is itself compared with the implementation on every run; Micro QR: with the library\'s reading of the 4-bit final pad codeword of M1/M3); '
-           'rMQR: table half proved for every version; algorithm half by differential comparison with the reference encoder and with the evaluated Spec/SymbolRMQR (recorded findings D15, D18)')
+           'rMQR: the emitted symbol equals the declarative symbol of Spec/SymbolRMQR.lean on every module outside the data modules of column 1, which carry a 0 bit (rmqr_symbol_except_column1: finding D18 stated exactly), and IS that symbol for the 21 versions where column 1 only carries remainder bits (rmqr_symbol_exact, rmqr_exact_versions); block shapes / count widths are relative to the regenerated rows (finding D15)')
 MANIFEST = {
     'technique': 'Lean 4: kernel evaluation of all generated tables against declarative specs (patterns, masks, capacity, BCH, RS generators); for QR the theorem that the emitted bitmap IS the standard\'s symbol of the description (declarative Spec.Symbol: stream, blocks, RS codewords, interleaving, placement order, mask, format/version information, function patterns), with uniqueness; module-for-module comparison with an independent reference encoder/reader for all three symbologies',
     'text': ('QRV/Props/C02.lean proves the table half of conformance for every version of every symbology: all function-pattern bitmaps, mask canvases, capacity rows, BCH words and RS coders '
              'equal declarative specifications written from the standards (kernel evaluation of every cell; a wrong alignment centre, BCH word, capacity row or RS tap breaks a named lemma). '
              'QRV/Props/C02Symbol.lean proves the algorithm half for QR: for every valid description and mask (explicit or automatic) the encoder model emits a regular bitmap whose every module equals the declarative symbol Spec.Symbol.QR.IsSymbol '
-             '(data stream, block shapes of Table 9, Reed-Solomon codeword condition, interleaving, the standard placement order - the model\'s walk is proved to visit exactly dataCoords v -, mask condition, BCH format/version words at their positions, dark module, function patterns), and that this specification determines the symbol uniquely; Props/C02SymbolMicro.lean proves the same for Micro QR M1-M4 (micro_symbol, micro_symbol_auto, micro_symbol_unique: terminator 3/5/7/9, 4-bit final data codeword of M1/M3, one RS block, four mask patterns, format word XOR 0x4445). '
+             '(data stream, block shapes of Table 9, Reed-Solomon codeword condition, interleaving, the standard placement order - the model\'s walk is proved to visit exactly dataCoords v -, mask condition, BCH format/version words at their positions, dark module, function patterns), and that this specification determines the symbol uniquely; Props/C02SymbolMicro.lean proves the same for Micro QR M1-M4 (micro_symbol, micro_symbol_auto, micro_symbol_unique: terminator 3/5/7/9, 4-bit final data codeword of M1/M3, one RS block, four mask patterns, format word XOR 0x4445). Props/C02SymbolRMQR.lean: the library's rMQR placement walk is the standard order WITHOUT the column-1 modules, which the standard visits last (rmqr_walk_is_standard_without_column1, rmqr_column1_last); hence every valid description's bitmap agrees with the standard symbol outside column 1, and is the standard symbol for 21 of 32 versions. '
              'For all three symbologies the algorithm half is also decided per message by comparing the implementation\'s bitmap with an independently written reference encoder and by reading it back with an independent '
              'reference reader, over all configurations and structured payloads, and (QR) by comparing it with the evaluated Spec.Symbol.'),
     'note': ('Trusted: Lean kernel; my transcription of the standards in Spec.* and in the python references (independent of /repo; rMQR EC split/count widths are not independent). '
